@@ -19,7 +19,7 @@ CLAIMED = {
     ),
     "C15": (
         "exploration",
-        "Seeded deterministic simulation of real nodes in four shapes: heterogeneous meshes (2-4 nodes, peer timeouts from {0,1,59,60,119,120,121,300,65535} x keepalive {none,1,30,600,70000}) observed for 3x the largest timeout after warm-up; silence injection at an instant drawn from a 200 s window; a two-node sweep over advertised timeout values (boundary values in quick, every value 0..65535 once in thorough); 48 h back-off runs with 1-2 unreachable configured peers and an optional phase of injected send errors. Oracles: at every announcement scheduling, interval == 1 or interval < min advertised timeout of the current peers (recomputed from the snapshot, not taken from the code); no timeout removal in a stable delivering mesh (all timeouts >= 3 s); a silenced peer is removed, with its routes, at the first housekeeping after its expiry and re-dialled, never earlier; dial attempts to unreachable configured peers never stop and are at most 3600 s (+2 s) apart once faults have stopped; node start and every step must not unwind (overflow checks on).",
+        "Seeded deterministic simulation of real nodes in four shapes: heterogeneous meshes (2-4 nodes, peer timeouts from {0,1,59,60,119,120,121,300,65535} x keepalive {none,1,30,600,70000}) observed for 3x the largest timeout after warm-up; silence injection at an instant drawn from a 200 s window; a two-node sweep over advertised timeout values (boundary values in quick, every value 0..65535 once in thorough); 48 h back-off runs with 1-2 unreachable configured peers and an optional phase of injected send errors. Oracles: at every announcement scheduling, interval == 1 or interval < min advertised timeout of the current peers (the timeout each peer entry's incarnation was configured with, i.e. advertises - not the value the node stored); no timeout removal in a stable delivering mesh (all timeouts >= 3 s), also after one node came back (crash or clean stop, 0-3 s down, 40 % of the mesh runs) with another timeout and the mesh settled again (all pairs connected, no handshake pending or lingering, nothing added or removed for 5 s, every node scheduled an announcement since it last added a peer); a silenced peer is removed, with its routes, at the first housekeeping after its expiry and re-dialled, never earlier; dial attempts to unreachable configured peers never stop and are at most 3600 s (+2 s) apart once faults have stopped; node start and every step must not unwind (overflow checks on).",
         "Trusted: simulator seams and the 1 s tick model (housekeeping condition evaluated after every event, as in run()). The quick tier caps the observation span of heterogeneous meshes at 3 x 1200 s; meshes containing a timeout < 3 s are observed for 30 s and only the scheduling clause is checked there.",
         "DESIGN.md section 8, C15",
         "seeded search over configurations x silence instants x send-error phases; bounded liveness after faults stop",
@@ -47,14 +47,14 @@ CLAIMED = {
     ),
     "C10": (
         "exploration",
-        "Forwarding family scenario (sim/src/fwd.rs): 2-5 real nodes, modes normal/router/switch/hub on tun and tap, 20-120 operations per run (thorough: up to 300): marked frames and packets (24..9000 bytes; destinations claimed / learned / unknown / broadcast / own; truncated frames), time steps of 0/1/switch timeout -1,+0,+1 (switch timeout 2..300 s), restarts on the same address with another claim set, graceful stops, crashes, one-way partitions, optional loss. C10 oracle (conservation per step): handling one interface read emits exactly one datagram per peer selected by the node's own lookup (probe) and nothing else; handling a received payload emits no datagram; every interface write is byte-identical to a frame read at a peer, comes from a current peer and is caused by exactly one datagram; at the end every marked frame was written at most once per node, never at its origin, only at selected peers, and at every selected peer when membership was stable and the network loss-free.",
+        "Forwarding family scenario (sim/src/fwd.rs): 2-5 real nodes, modes normal/router/switch/hub on tun and tap, 20-120 operations per run (thorough: up to 300): marked frames and packets (24..9000 bytes; destinations claimed / learned / unknown / broadcast / own; truncated frames), time steps of 0/1/switch timeout -1,+0,+1 (switch timeout 2..300 s), restarts on the same address with another claim set, graceful stops, crashes, one-way partitions, optional loss. C10 oracle (conservation per step): handling one interface read emits exactly one datagram per peer selected by the node's own lookup (probe) and nothing else; handling a received payload emits no datagram; every interface write is byte-identical to a frame read at a peer, comes from a current peer and is caused by exactly one datagram; at the end every marked frame was written at most once per peer entry that selected it (at most once per node unless the origin held two connections to it), never at its origin, only at selected peers, and at every selected peer with which the origin had a settled connection (both ends added each other after their last start and at least 2 s before the read; the receiver neither restarted nor re-handshook within the next second) on a loss-free network. A quarter of the meshes with three or more nodes is multi-homed (every node has an address in a second network, configured peers are dialled in either); there a node must never dial, on an announcement, a node it is already peered with under another address (restricted to nodes that never restarted).",
         "Trusted: simulator seams and the harness' cause tagging of wire datagrams (which step emitted them). Steps in which housekeeping ran are excluded from the exact datagram count (announcements are emitted in the same step). Relay detection needs no decryption.",
         "DESIGN.md section 8, C10 and 8.1",
         "seeded operation sequences; conservation invariants per step + exactly-once accounting over the history",
     ),
     "C11": (
         "exploration",
-        "Forwarding family scenario (sim/src/fwd.rs): 2-5 real nodes, modes normal/router/switch/hub on tun and tap, 20-120 operations per run (thorough: up to 300): marked frames and packets (24..9000 bytes; destinations claimed / learned / unknown / broadcast / own; truncated frames), time steps of 0/1/switch timeout -1,+0,+1 (switch timeout 2..300 s), restarts on the same address with another claim set, graceful stops, crashes, one-way partitions, optional loss. C11 shapes: router/normal on tun (router on tap with MAC ranges), 1-3 claims per node from a nested/overlapping universe (IPv4 /0../32, IPv6). Oracle per interface read: the next hop (lookup probe) is the peer of a longest-prefix match over the claims in the table dump (independent bit-by-bit matcher) or a cached decision that the history-based reference still holds (made <= switch timeout ago, not beyond its claim's expiry, peer not removed, claim not withdrawn since, not past a sweep); no live claim: router mode emits nothing and the dropped-payload counter rises by one; cache entries never outlive the switch timeout, a sweep after their expiry, or a claim of their peer containing the address. Table level (3 of 4 runs after the sweep; sim/src/tbl.rs): one real ClaimTable driven directly with announce / withdraw / disconnect / lookup / learn / time steps of 0, 1, cache timeout, cache timeout+1, claim timeout+1 - all operation sequences of length 4 (thorough: 6) over a 14 operation alphabet, then random histories up to 300 operations - compared after every operation with a reference model written from the property statement (claims with expiries, cached decisions with expiries).",
+        "Forwarding family scenario (sim/src/fwd.rs): 2-5 real nodes, modes normal/router/switch/hub on tun and tap, 20-120 operations per run (thorough: up to 300): marked frames and packets (24..9000 bytes; destinations claimed / learned / unknown / broadcast / own; truncated frames), time steps of 0/1/switch timeout -1,+0,+1 (switch timeout 2..300 s), restarts on the same address with another claim set, graceful stops, crashes, one-way partitions, optional loss. C11 shapes: router/normal on tun (router on tap with MAC ranges), 1-3 claims per node from a nested/overlapping universe (IPv4 /0../32, IPv6). Oracle per interface read: the next hop (lookup probe) is the peer of a longest-prefix match over the claims in the table dump (independent bit-by-bit matcher) or a cached decision that the history-based reference still holds (made <= switch timeout ago, not beyond its claim's expiry, peer not removed, claim not withdrawn since, not past a sweep); no live claim: router mode emits nothing and the dropped-payload counter rises by one; cache entries never outlive the switch timeout, a sweep after their expiry, or a claim of their peer containing the address. Table level (3 of 4 runs after the sweep; sim/src/tbl.rs): one real ClaimTable driven directly with announce / withdraw / disconnect / lookup / learn / time steps of 0, 1, cache timeout, cache timeout+1, claim timeout+1 - all operation sequences of length 4 (thorough: 6) over a 14 operation alphabet, then random histories up to 300 operations - compared after every operation with a reference model written from the property statement (claims with expiries, cached decisions with expiries); a divergence between table and announcement history is followed to the first moment a lookup shows it (clock to the earlier expiry + 1, sweep, look up every address). Node level judges every decision twice: against the claims in the table dump and against the announcements of the current peers (live for one peer timeout after the last announcement; expired but unswept claims admit both answers).",
         "Trusted: simulator seams, the reference matcher (sim/src/refmodel.rs). The exhaustive 8/16-bit prefix universes of the quantifier are a pure-function sweep and are not part of this simulation check; prefix arithmetic is exercised through the generated packets only (boundary addresses of every claim are in the destination grid).",
         "DESIGN.md section 8, C11",
         "seeded operation sequences with time steps around expiry; history-based reference for cached decisions",
@@ -117,14 +117,14 @@ CLAIMED = {
     ),
     "C16": (
         "exploration",
-        "Node level, the part of the property that meets the network: 1-6 real nodes (thorough: up to 24, beyond the 20 peer limit of an announcement) with 0-9 advertised addresses per family, claims of every address length the configuration can express with any prefix 0-255, timeouts up to 65535; plain meshes in 30 % of the runs; a corrupting network (bit flips, truncation, duplicates); an outside sender presenting truncations, single-byte substitutions at tag/length positions, random parts with boundary lengths behind a genuine key hash and random strings up to 2 KiB to the handshake decoder; and an alien-version peer (trusted key, real handshake/envelope code, OWN node-info encoder and decoder written from the format) that announces claims of every address length 0-16 and prefix 0-255, 0-9 addresses per family and unknown parts (tags 6-255, 0-700 bytes) at every position. Oracles: no unwind; real node -> real node: decoded claims and timeout equal the sender's, held addresses are the seen address followed by the sender's stable own addresses in normal form (7 per family, IPv6 first); real node -> reference decoder: same, at most 20 peer entries, each in normal form; reference encoder -> real node: decoded claims, timeout and addresses equal what the alien encoded, the alien stays connected at every step and packets for its claim reach it byte-identical.",
+        "Node level, the part of the property that meets the network: 1-6 real nodes (thorough: up to 24, beyond the 20 peer limit of an announcement) with 0-9 advertised addresses per family, claims of every address length the configuration can express with any prefix 0-255, timeouts up to 65535; plain meshes in 30 % of the runs; a corrupting network (bit flips, truncation, duplicates); an outside sender presenting truncations, single-byte substitutions at tag/length positions, random parts with boundary lengths behind a genuine key hash and random strings up to 2 KiB to the handshake decoder; and an alien-version peer (trusted key, real handshake/envelope code, OWN node-info encoder and decoder written from the format) that announces claims of every address length 0-16 and prefix 0-255, 0-9 addresses per family and unknown parts (tags 6-255, 0-700 bytes) at every position. Oracles: no unwind; real node -> real node: decoded claims and timeout equal the sender's, held addresses are the seen address followed by the sender's stable own addresses in normal form (7 per family, IPv6 first); real node -> reference decoder: same, at most 20 peer entries, each in normal form; reference encoder -> real node: decoded claims, timeout and addresses equal what the alien encoded, the alien stays connected at every step and packets for its claim reach it byte-identical; every message the reference encoder writes is also given directly to the real decoder and must come back exactly; every real node's own announcement goes through real encoder -> reference decoder and real decoder (sampled at 10 % of its ticks); a well-formed alien that completed its handshake on an unaltering network must be listed by the node within 30 s. A run that does not terminate within 150 s of wall-clock time is reported as a hang with its seed.",
         "Not covered by simulation and not claimed: the pure-function part of the property (round trip over all generated message shapes, every truncation and substitution of every encoding, the rotation-message decoder on arbitrary bytes, which sits behind AEAD and is only reached by genuine and alien-peer messages). Trusted: the reference codec in sim/src/c16.rs. Own addresses a node adopted from peers come and go, so only the stable part (configured + socket address) is compared exactly.",
         "DESIGN.md section 8, C16",
         "seeded meshes with corrupting network, decoder-input adversary and an alien-version peer with an independent codec",
     ),
     "C17": (
         "exploration",
-        "7/8 of the runs drive the real BeaconSerializer over the simulated clock and real files: 1-4 beacons for address lists of 0-8 IPv4 / 0-4 IPv6 entries, writer clocks inside, at the edge of and beyond the reader's age limit (50 as in the node, 0, 65535, around 32768, any), 200 passwords incl. empty, reader hour following the run index (all 65536 stamps over a thorough batch) or next to the 16 bit wrap; text with separators inside beacons and stray / partial / overlapping markers; decoding directly or through a file that is torn at any byte, garbage or missing. 1/8 of the runs are 2-5 real nodes that know each other only through beacon files maintained by a publisher actor, with clocks anywhere in the hour cycle, skews up to +-160 h and three passwords. Oracles: clean texts yield exactly the concatenated address lists (IPv4 first) of the beacons with the reader's password and circular hour distance <= limit; torn files a whole-beacon prefix; with stray markers every genuine beacon is still found in order; no unwind on any text; every BeaconLoaded probe of a node equals the reference over its file; nodes with a common password and clocks within 48 h meet.",
+        "7/8 of the runs drive the real BeaconSerializer over the simulated clock and real files: 1-4 beacons for address lists of 0-8 IPv4 / 0-4 IPv6 entries, writer clocks inside, at the edge of and beyond the reader's age limit (50 as in the node, 0, 65535, around 32768, any), 200 passwords incl. empty, reader hour following the run index (all 65536 stamps over a thorough batch) or next to the 16 bit wrap; in 1 % of the runs the first beacon is written at the hour stamp (of all 65536) that gives the shortest text, i.e. the most leading zero bytes in the masked data; text with separators inside beacons and stray / partial / overlapping markers, 4-8 k character chunks between markers; decoding directly or through a file that is torn at any byte, garbage or missing. 1/8 of the runs are 2-5 real nodes that know each other only through beacon files maintained by a publisher actor, with clocks anywhere in the hour cycle, skews up to +-160 h and three passwords. Oracles: clean texts yield exactly the concatenated address lists (IPv4 first) of the beacons with the reader's password and circular hour distance <= limit; torn files a whole-beacon prefix; with stray markers every genuine beacon is still found in order; no unwind on any text; every BeaconLoaded probe of a node equals the reference over its file; nodes with a common password and clocks within 48 h meet.",
         "Trusted: simulator clock seam, /dev/shm as the file system, the publisher actor. Texts whose only marker occurrences are those of genuine beacons are compared exactly; the one-byte beacon checksum makes a random chunk pass with probability 1/256, so texts with deliberately placed stray markers are checked for containment only.",
         "DESIGN.md section 8, C17",
         "seeded beacons x clocks x texts x file faults against a reference; beacon-only discovery between real nodes",
